@@ -4,8 +4,10 @@ import (
 	"encoding/json"
 	"fmt"
 	"io"
+	"net"
 	"net/http"
 	"os"
+	"sort"
 	"strings"
 	"sync"
 	"syscall"
@@ -27,7 +29,9 @@ type lifeCases struct {
 		Threshold int      `json:"threshold"`
 		History   []string `json:"history"`
 	} `json:"health"`
-	Retry []int `json:"retry"`
+	Retry     []int      `json:"retry"`
+	Patterns  [][]string `json:"patterns"`
+	FailKinds []string   `json:"failkinds"`
 }
 
 func loadLifeCases(a *Args) *lifeCases {
@@ -100,16 +104,29 @@ func backoffDriver(a *Args) {
 	if hx.Thorough() {
 		patterns = append(patterns, "FFFFFFFFFFFFFF", "FFFFFFFFFFFFSFF", "X")
 	}
+	// every F/S pattern up to length 5 (enumerated by TLC), each failing call failing in one of the ways of
+	// FailKinds (rotating, so that every kind also appears as first, middle and last failure)
+	for _, p := range cases.Patterns {
+		patterns = append(patterns, strings.Join(p, ""))
+	}
+	failKinds = append([]string{}, cases.FailKinds...)
+	sort.Strings(failKinds)
+	if len(failKinds) == 0 {
+		failKinds = []string{"500-body"}
+	}
 	var wg sync.WaitGroup
 	var trs []*hx.Tracer
+	sem := make(chan struct{}, 12)
 	for pi, pat := range patterns {
 		t := hx.NewTracer(fmt.Sprintf("backoff-loop-%d", pi))
 		trs = append(trs, t)
 		wg.Add(1)
-		go func(pat string, t *hx.Tracer) {
+		go func(pat string, pi int, t *hx.Tracer) {
 			defer wg.Done()
-			backoffLoop(res, pat, t)
-		}(pat, t)
+			sem <- struct{}{}
+			defer func() { <-sem }()
+			backoffLoop(res, pat, pi, t)
+		}(pat, pi, t)
 	}
 	wg.Wait()
 	for _, t := range trs {
@@ -117,8 +134,47 @@ func backoffDriver(a *Args) {
 	}
 }
 
-func backoffLoop(res *hx.Result, pattern string, tr *hx.Tracer) {
-	tr.Emit("Reset", "seg", "backoff-loop-"+pattern, "sig", "backoff-loop:"+pattern)
+var failKinds []string
+
+// failList answers a list call with one of the failure kinds.
+func failList(w http.ResponseWriter, kind string) {
+	switch kind {
+	case "503-empty", "502-empty", "401-empty", "204-empty", "302-empty":
+		code := 0
+		fmt.Sscanf(kind, "%d", &code)
+		if code == 302 {
+			w.Header().Set("Location", "/nowhere-"+kind)
+		}
+		w.Header().Set("Content-Length", "0")
+		w.WriteHeader(code)
+	case "200-garbage":
+		w.WriteHeader(200)
+		w.Write([]byte("<html>not json</html>"))
+	case "200-truncated":
+		w.WriteHeader(200)
+		w.Write([]byte(`["abc", "de`))
+	case "reset":
+		if hj, ok := w.(http.Hijacker); ok {
+			if c, _, err := hj.Hijack(); err == nil {
+				// the reset comes after the response has begun: a reset before the first response byte on a
+				// reused connection is retried by net/http's transport itself, which is not the agent's poll loop
+				c.Write([]byte("HTTP/1.1 200 OK\r\nContent-Type: application/json\r\nContent-Length: 100\r\n\r\n[\"abc\","))
+				time.Sleep(2 * time.Millisecond)
+				if tc, ok := c.(*net.TCPConn); ok {
+					tc.SetLinger(0)
+				}
+				c.Close()
+				return
+			}
+		}
+		http.Error(w, "scripted failure", 500)
+	default:
+		http.Error(w, "scripted failure", 500)
+	}
+}
+
+func backoffLoop(res *hx.Result, pattern string, pi int, tr *hx.Tracer) {
+	tr.Emit("Reset", "seg", fmt.Sprintf("backoff-loop-%d-%s", pi, pattern), "sig", "backoff-loop:"+pattern)
 	tr.Emit("Cfg", "threshold", 2, "health", false, "grace_ms", 0, "latency_ms", 0)
 	md := hx.StartMetadata()
 	defer md.Close()
@@ -142,8 +198,12 @@ func backoffLoop(res *hx.Result, pattern string, tr *hx.Tracer) {
 		tr.Emit("ListArrive", "t_us", us(), "k", i)
 		if i < len(pattern) {
 			if pattern[i] == 'F' {
-				tr.Emit("ListAnswer", "ok", false, "t_us", us())
-				http.Error(w, "scripted failure", 500)
+				kind := "500-body"
+				if len(failKinds) > 0 {
+					kind = failKinds[(pi+i)%len(failKinds)]
+				}
+				tr.Emit("ListAnswer", "ok", false, "t_us", us(), "kind", kind)
+				failList(w, kind)
 				return
 			}
 			tr.Emit("ListAnswer", "ok", true, "t_us", us())
